@@ -4,7 +4,10 @@
    The model's file system is the chain of directories leading to R (so that
    ".." above R and absolute names behave as on the real disk) with the tree of
    the case below it. Tree ops with a missing/non-directory parent, an existing
-   name or an empty/./.. component are ignored (same rule as the harness). *)
+   name or an empty/./.. component are ignored (same rule as the harness).
+   Observation per Q: `<status|none> <entries|-> why`, each entry
+   `<where the enqueued text resolves>:<c|n>` (c = the text is its own
+   canonicalisation). *)
 open Conv
 open PathConfModel
 
@@ -116,7 +119,15 @@ let run_case (line : string) : string =
             (match pc_handle fs cwd api !update rq with
              | None -> emit "none - why"
              | Some (st, enq) ->
-                 let e = match enq with [] -> "-" | l -> join "," (Stdlib.List.map show_path l) in
+                 (* per entry: where its TEXT resolves and whether that text is canonical
+                    (pc_observe; by C20_enqueued_text_is_canonical always the checked path and true) *)
+                 let show_entry p =
+                   let (where, canonical) = pc_observe fs cwd p in
+                   (match where with
+                    | Datatypes.Coq_inr q -> show_path q
+                    | Datatypes.Coq_inl _ -> "UNRES:" ^ enc ("/" ^ String.concat "/" (Stdlib.List.map string_of_bytes p)))
+                   ^ (if canonical then ":c" else ":n") in
+                 let e = match enq with [] -> "-" | l -> join "," (Stdlib.List.map show_entry l) in
                  let w = int_of_n (pc_why fs cwd !update rq) in
                  emit (Printf.sprintf "%d %s why<|:%d>" (int_of_n st) e w))
         | _ -> emit "BADOP") ops;
